@@ -83,9 +83,10 @@ def gen_geometry(rng, m, ground):
     L = rng.choice([5.0, 10.0, 21.414285, 16.0])
     n = rng.randrange(4, 11)
     free_t = ['dipole', 'vee', 'tee_free', 'star', 'two_wires', 'tapered',
-              'arc', 'helix', 'loop', 'bent3', 'radii2']
+              'arc', 'helix', 'loop', 'bent3', 'radii2', 'array', 'zigzag', 'mixed']
     gnd_t = ['monopole', 'monopole_ud', 'inv_l', 'tee_gnd', 'dipole', 'vee',
-             'two_monopoles', 'arc', 'helix', 'gnd_star', 'tapered', 'two_wires']
+             'two_monopoles', 'arc', 'helix', 'gnd_star', 'tapered', 'two_wires',
+             'array', 'zigzag', 'mixed', 'gnd_fan']
     t = rng.choice(gnd_t if ground else free_t)
     m.template = t
     m.length = L
@@ -191,6 +192,39 @@ def gen_geometry(rng, m, ground):
     elif t == 'two_monopoles':
         wire(n, (0, 0, 0), (0, 0, L / 2))
         wire(rng.randrange(4, 9), (L / 3, 0, 0), (L / 3, 0, L / 2.5))
+    elif t == 'array':
+        # 5..8 parallel elements of decreasing length (unconnected)
+        k = rng.randrange(5, 9)
+        for i in range(k):
+            li = L * (1 - 0.07 * i)
+            wire(rng.randrange(3, 7), (i * L / 6, -li / 2, h), (i * L / 6, li / 2, h))
+    elif t == 'zigzag':
+        # a chain of 5..7 connected wires
+        k = rng.randrange(5, 8)
+        p = (0.0, 0.0, h)
+        for i in range(k):
+            q = (p[0] + L / 6, (L / 8 if i % 2 == 0 else -L / 8), h + (0.5 if i % 3 == 0 else 0.0))
+            w = (p, q) if rng.random() < 0.7 else (q, p)
+            wire(rng.randrange(3, 6), *w)
+            p = q
+    elif t == 'mixed':
+        # a straight wire, an arc and a helix in one model (unconnected)
+        wire(n, (0, -L / 2, h + 6), (0, L / 2, h + 6))
+        na = rng.randrange(4, 8)
+        add('arc', na, r, '--arc', ','.join(_g(x) for x in (na, 2.0, 20, 160, r)))
+        nh = rng.randrange(9, 13)
+        add('helix', nh, 0.001, '--helix', ','.join(_g(x) for x in (nh, 1.0, 0.5, 0.001, 0.1, 0.1)))
+        # arcs and helices are created first by main: give them tags that
+        # keep them apart from the wire, and lift them off the ground
+        a.extend(['--geo-translate', '9,3,0,%s,%d' % (_g(h + 3), 1)])
+        a.extend(['--geo-translate', '9,-3,0,%s,%d' % (_g(h + 1), 2)])
+        m.exact = False
+    elif t == 'gnd_fan':
+        # several grounded radiators fanning out from one ground point is not
+        # allowed (one wire per ground point): use separate feet
+        k = rng.randrange(3, 6)
+        for i in range(k):
+            wire(rng.randrange(3, 7), (i * 1.5, 0, 0), (i * 1.5 + 1.0, 0, L / 3))
     elif t == 'gnd_star':
         wire(n, (0, 0, 0), (0, 0, L / 3))
         wire(rng.randrange(3, 6), (0, 0, L / 3), (L / 4, 0, L / 4))
@@ -218,12 +252,17 @@ def gen_geometry(rng, m, ground):
     # effective tags (as compute_tags assigns them)
     explicit = [g['tag'] for g in m.geo if g['tag'] is not None]
     nxt = max(explicit) + 1 if explicit else 1
-    for g in m.geo:
-        if g['tag'] is None:
-            g['etag'] = nxt
-            nxt += 1
-        else:
-            g['etag'] = g['tag']
+    # main() creates arcs first, then helices, then wires: automatic tags
+    # follow that order
+    for kind in ('arc', 'helix', 'wire'):
+        for g in m.geo:
+            if g['kind'] != kind:
+                continue
+            if g['tag'] is None:
+                g['etag'] = nxt
+                nxt += 1
+            else:
+                g['etag'] = g['tag']
     if t == 'tapered':
         tg = m.geo[0]['etag']
         v = '%d,%d' % (tg, rng.choice([1, 2, 3]))
@@ -286,8 +325,8 @@ def gen_env(rng, m, env):
         a += ['--medium=0,0,0']
     elif env == 'real1':
         a += ['--medium=%s,%s,0' % (_g(rng.choice([13, 5, 80, 3, 1])), _g(rng.choice([0.005, 0.001, 0.03, 5.0, 1e7])))]
-    elif env in ('real2', 'real3'):
-        k = 2 if env == 'real2' else 3
+    elif env in ('real2', 'real3', 'real4'):
+        k = int(env[-1])
         c = rng.choice([5.0, 12.0, 30.0])
         for i in range(k):
             eps = rng.choice([13, 5, 80, 10])
@@ -311,7 +350,7 @@ def gen_env(rng, m, env):
 
 def gen_sources(rng, m):
     a = []
-    k = rng.choice([1, 1, 1, 2, 3])
+    k = rng.choice([1, 1, 1, 2, 3, 3, 5])
     npl = m.min_pulses()
     if m.exact:
         npl = m.pulse_counts(m.env != 'free')
@@ -431,7 +470,7 @@ def gen_loads(rng, m, kinds):
 def gen_model(rng, env=None, kinds=None):
     m = Model()
     if env is None:
-        env = rng.choice(['free', 'free', 'ideal', 'ideal', 'real1', 'real2', 'real3'])
+        env = rng.choice(['free', 'free', 'ideal', 'ideal', 'real1', 'real2', 'real3', 'real3', 'real4'][:rng.choice([7, 7, 9])])
     gen_geometry(rng, m, ground=(env != 'free'))
     gen_env(rng, m, env)
     gen_sources(rng, m)
@@ -553,8 +592,12 @@ def gen_pool(rng, m, k=None):
         if 0.5 <= fk <= 400:
             cands += [fk * 0.85, fk * 1.2]
             probes.append('skin_asymptote_flip')
+    wide = rng.random() < 0.1
     while len(cands) < k:
-        f = base * rng.choice([0.5, 0.7, 0.9, 1.0, 1.1, 1.3, 1.5, 2.0]) * rng.uniform(0.97, 1.03)
+        mult = rng.choice([0.5, 0.7, 0.9, 1.0, 1.1, 1.3, 1.5, 2.0])
+        if wide:
+            mult = rng.choice([0.02, 0.1, 0.25, 1.0, 4.0, 8.0])
+        f = base * mult * rng.uniform(0.97, 1.03)
         f = round(f, rng.choice([1, 2, 3, 6]))
         if f <= 0:
             continue
@@ -580,8 +623,14 @@ def gen_pool(rng, m, k=None):
 def gen_far(rng):
     zen = [rng.choice([0, 10, 45, 90]), rng.choice([10, 15, 30, 45]), rng.randrange(1, 5)]
     azi = [rng.choice([0, 0, 90, 180]), rng.choice([30, 45, 90]), rng.randrange(1, 4)]
-    pwr = rng.choice([None, None, 100.0, 1.5])
-    dist = rng.choice([0, 0, 1000.0, 25.0])
+    r = rng.random()
+    if r < 0.06:
+        zen, azi = [0, 10, 10], [0, 10, 37]            # the program's default grid
+    elif r < 0.12:
+        zen = [rng.choice([0, -90, 85]), rng.choice([5, 7.5, 0.1]), rng.randrange(5, 20)]
+        azi = [rng.choice([0, 350, -45]), rng.choice([10, 120, 0.5]), rng.randrange(1, 6)]
+    pwr = rng.choice([None, None, 100.0, 1.5, 1e-6, 1e6])
+    dist = rng.choice([0, 0, 1000.0, 25.0, 1e-3, 1e7])
     return [zen, azi, pwr, dist]
 
 
@@ -591,6 +640,8 @@ def gen_near(rng, m):
     inc = [rng.choice([1.0, 0.5]), rng.choice([1.0, 2.0]), rng.choice([1.0, 3.0])]
     cnt = rng.choice([[1, 1, 1], [2, 1, 1], [1, 2, 1], [1, 1, 3], [2, 2, 1], [2, 1, 2], [2, 2, 2],
                       [3, 1, 1], [1, 3, 2], [4, 2, 1], [1, 1, 5]])
+    if rng.random() < 0.06:
+        cnt = rng.choice([[3, 3, 3], [10, 1, 1], [2, 5, 2], [1, 1, 20]])
     if rng.random() < 0.2:
         inc[rng.randrange(3)] *= -1
     if rng.random() < 0.15:
@@ -749,8 +800,9 @@ def field_args(rng, m, force=None):
     for o in sel:
         a += ['--option', o]
     far = gen_far(rng)
-    a += ['--theta=%s' % ','.join(_g(x) for x in far[0]),
-          '--phi=%s' % ','.join(_g(x) for x in far[1])]
+    if rng.random() < 0.93:
+        a += ['--theta=%s' % ','.join(_g(x) for x in far[0]),
+              '--phi=%s' % ','.join(_g(x) for x in far[1])]
     if 'far-field-absolute' in sel or rng.random() < 0.15:
         if far[2]:
             a += ['--ff-power=%s' % _g(far[2])]
